@@ -4,6 +4,7 @@ from props.util import *
 
 KINDS7 = ["SMA", "WMA", "SD", "MAD", "MIN", "MAX", "BB"]
 t2_checker = "check_t2_window"
+T2_ALL = False
 rule = ("SMA, WMA, SD, MAD, MIN, MAX, BB: (A) all value sequences to the tier's depth over the alphabet {-2.5,-1,-0.0,0,1,1,3e11} for "
         "periods 1..5 (quick: a seeded sample of the leaves of the trie, every prefix checked); (B) seeded streams of length >= 4n+50 "
         "with mixed-sign log-uniform magnitudes up to 1e12, ties and plateaus, periods {1,2,3,1023,1024} and sampled from 1..1024; "
@@ -40,6 +41,8 @@ def adversary(n, r):
 
 
 def gen_cases(ctx):
+    global T2_ALL
+    T2_ALL = ctx.thorough
     r = ctx.rng
     cases = []
     alpha = [-2.5, -1.0, -0.0, 0.0, 1.0, 1.0, 3e11]
@@ -50,7 +53,10 @@ def gen_cases(ctx):
             for j in range(nleaves // 5):
                 seq = [r.choice(alpha) for _ in range(depth)]
                 pr = (p, 0, 0, r.choice([2.0, 0.5, 0.0, 3.0]) if ind == "BB" else 0.0)
-                cases.append(Case("A_%s_p%d_%d" % (ind, p, j), [new_op(0, ind, pr)] + [("n", 0, x) for x in seq],
+                feeds_a = [("n", 0, x) for x in seq]
+                if j % 3 == 2:
+                    feeds_a.insert(r.randint(1, depth - 1), ("r", 0))
+                cases.append(Case("A_%s_p%d_%d" % (ind, p, j), [new_op(0, ind, pr)] + feeds_a,
                                   meta={"ind": ind, "p": p, "fam": "A", "n": depth}))
     # family B
     nb = 3 if not ctx.thorough else 12
@@ -60,15 +66,21 @@ def gen_cases(ctx):
             plist = [1, 2, 3, r.randint(4, 40), r.randint(40, 128), 257]
         for j, p in enumerate(plist):
             n = 4 * p + 50 if p <= 64 or ctx.thorough else 2 * p + 50
-            style = r.choice(["signed", "walk", "mixed", "ties", "uniform"])
-            xs = scalar_stream(r, n, style)
+            style = r.choice(["signed", "walk", "mixed", "ties", "uniform", "periodic", "tiny", "huge", "flatafter", "zeros", "segments", "segments"])
+            xs = scalar_stream(r, n, style, p=p)
             # plateaus and occasional huge/small magnitudes
             for _ in range(r.randint(0, 3)):
                 a = r.randrange(n)
                 for k in range(a, min(n, a + r.randint(1, p + 2))):
                     xs[k] = xs[a]
             pr = (p, 0, 0, r.choice([2.0, 0.5, 1e3]) if ind == "BB" else 0.0)
-            cases.append(Case("B_%s_p%d_%d" % (ind, p, j), [new_op(0, ind, pr)] + [("n", 0, x) for x in xs],
+            feeds = [("n", 0, x) for x in xs]
+            # t counts inputs since construction OR reset: put resets at interesting positions in some streams
+            if j % 2 == 1 and p <= 64:
+                for pos in sorted({r.choice([1, p, p + 1, 2 * p + 1, 3 * p]) for _ in range(2)}, reverse=True):
+                    if pos < len(feeds):
+                        feeds.insert(pos, ("r", 0))
+            cases.append(Case("B_%s_p%d_%d" % (ind, p, j), [new_op(0, ind, pr)] + feeds,
                               dump=(0,) if p <= 64 else (), meta={"ind": ind, "p": p, "fam": "B", "n": n, "style": style}))
     # K7: WMA adversary (known finding) and the same stream through SMA (must stay within tolerance)
     adv = adversary(1400 if not ctx.thorough else 20000, r)
@@ -76,7 +88,10 @@ def gen_cases(ctx):
                       meta={"ind": "WMA", "p": 2, "fam": "K7", "n": len(adv)}))
     cases.append(Case("K7_SMA_adversary", [new_op(0, "SMA", (2, 0, 0, 0.0))] + [("n", 0, x) for x in adv], dump=(),
                       meta={"ind": "SMA", "p": 2, "fam": "K7", "n": len(adv)}))
-    return cases
+    k7 = [c for c in cases if c.meta['fam'] == 'K7']
+    rest = [c for c in cases if c.meta['fam'] != 'K7' and c.meta['p'] <= 64]
+    big = [c for c in cases if c.meta['fam'] != 'K7' and c.meta['p'] > 64]
+    return with_scaled(rest, r) + big + k7
 
 
 def nontrivial(c):
@@ -85,7 +100,8 @@ def nontrivial(c):
 
 
 def t2_select(c):
-    return True
+    # exact rational evaluation costs O(period) big-number operations per step: large periods only in the thorough tier
+    return c.meta["p"] <= 64 or c.meta["fam"] == "K7" or T2_ALL
 
 
 def t2_violation(ctx, c, r):
